@@ -9,6 +9,7 @@ CONSTANTS
   Faults <- SemFaults
   OnlyFaulty = TRUE
   Grow = 50
+  Shadowing = FALSE
   ForceAfter = 25
 CONSTRAINT SizeBound
 INVARIANTS Balanced UsesBound EmitInv
